@@ -57,6 +57,7 @@ private mixed path_policy(string which, string path) {
   mixed p = policy[which];
   if (p == "allow") return 1;
   if (p == "deny") return 0;
+  if (p == "scratch") return (strsrch(path, "/scratch/") == 0 || strsrch(path, "scratch/") == 0) && strsrch(path, "..") == -1;
   if (stringp(p) && p[0..7] == "rewrite:") return p[8..];
   if (stringp(p) && p[0..6] == "prefix:") return strsrch(path, p[7..]) == 0;
   return 0;
